@@ -21,6 +21,7 @@
 #include "cppNameComponent.h"
 
 #include <vector>
+#include <algorithm>
 #include <map>
 #include <set>
 #include <string>
@@ -141,7 +142,17 @@ public:
   Templates _templates;
   CPPNameComponent _name;
 
-  typedef std::set<CPPScope *> Using;
+  // The scopes named by using-directives, in the order in which they were
+  // written (not a std::set of pointers: name lookup searches them
+  // first-hit-wins, and must not depend on the addresses of the scopes).
+  class Using : public std::vector<CPPScope *> {
+  public:
+    void insert(CPPScope *scope) {
+      if (std::find(begin(), end(), scope) == end()) {
+        push_back(scope);
+      }
+    }
+  };
   Using _using;
 
 protected:
